@@ -1,0 +1,6 @@
+//go:build !verif
+
+package backends
+
+// verifS3Client returns a substitute S3 client for the verification harness; nil without the verif build tag.
+func verifS3Client() S3Client { return nil }
